@@ -209,13 +209,19 @@ def scatter (n : Nat) (names : Mask) (σ : Subst) (a : NT R) : NT R :=
    fun env' => sumM o sz n red
       (fun env => if σ.all (fun p => p.2.val env == env' p.1) then a.f env else o.zero) env'⟩
 
-/-- `adjoint_cat`: every part receives the slice of the incoming adjoint that it covers (or the whole
-    adjoint if that does not mention the concatenated variable), then the usual aggregation. -/
-def catBack (n : Nat) (F : Mask) (v : Nat) (a : NT R) : List (Nat × Nat) → Nat → (Nat → NT R)
+/-- `adjoint_cat`, one part: the slice of the incoming adjoint that the part covers (or the whole adjoint
+    if that does not mention the concatenated variable), expanded (`_expand_like`) over the inputs `V` of
+    the Cat that neither the message nor the part mention — Cat broadcasts the part over them —, then
+    the usual aggregation. -/
+def catPart (n : Nat) (F : Mask) (v : Nat) (V : Mask) (a : NT R) (id off : Nat) : NT R :=
+  agg o sz n F (nameMask L id)
+    (expandNT n (if a.mask v then ⟨a.mask, fun env => a.f (upd env v (off + env v))⟩ else a)
+      (nameMask L id) (fun k => V k && k != v))
+
+def catBack (n : Nat) (F : Mask) (v : Nat) (V : Mask) (a : NT R) : List (Nat × Nat) → Nat → (Nat → NT R)
   | [], _ => fun _ => zeroNT o
   | (id, len) :: rest, off =>
-      let part : NT R := if a.mask v then ⟨a.mask, fun env => a.f (upd env v (off + env v))⟩ else a
-      addF o (single o id (agg o sz n F (nameMask L id) part)) (catBack n F v a rest (off + len))
+      addF o (single o id (catPart o sz L n F v V a id off)) (catBack n F v V a rest (off + len))
 
 /-- The reverse sweep from a node with (already aggregated) incoming adjoint `a`; the result maps
     every leaf to its accumulated adjoint.  `F` = inputs of the root, `n` bounds the variables. -/
@@ -239,7 +245,7 @@ def backward (n : Nat) (F : Mask) : Expr → NT R → (Nat → NT R)
       -- adjoint_reduce, plate branch: div_op(prod_op(out_adj, out), arg)
       backward n F e (agg o sz n F (fvMask L e)
         (divNT o (mulNT o a (valNT o sz L (.prod v e))) (valNT o sz L e)))
-  | .cat v parts, a => catBack o sz L n F v a parts 0
+  | .cat v parts, a => catBack o sz L n F v (fvMask L (.cat v parts)) a parts 0
 
 /-- `forward_backward`: forward value and the adjoint of every leaf. -/
 def adjoint (n : Nat) (e : Expr) : Nat → NT R := backward o sz L n (fvMask L e) e (oneNT o)
